@@ -750,6 +750,27 @@ func (g *gen) genVector(arch, st string, d opDef, pl plan) *Case {
 			}
 		}
 		c.Enc = encVOP2(d.op, dst, s0, 4, lit)
+	case "vop2sdwa":
+		// VOP2 with SRC0 = 249: the second dword carries the VGPR source and the sub-dword selects
+		pl.kind[0] = 0
+		g.vecSrc(c, "s0", 32, 'i', pl, 0, 2, 8, false, false)
+		g.setV(c, 4, 32, g.laneValues(32, 'i', pl, 1))
+		c.Ops["s1"] = OpLog{C: 256 + 4, N: 1}
+		dst := 10
+		c.Ops["d"] = OpLog{C: 256 + dst, N: 1}
+		g.setV(c, dst, 32, g.randLanes(32, 'i'))
+		// walk through the selects deterministically: 21 (dst_sel, dst_unused) pairs
+		j := rk
+		if j < 0 {
+			j = 0
+		}
+		dsel, dun, s0sel, s1sel := j%7, (j/7)%3, (j*2+1)%7, (j*3+2)%7
+		if rk < 0 {
+			dsel, dun, s0sel, s1sel = g.r.Intn(7), g.r.Intn(3), g.r.Intn(7), g.r.Intn(7)
+		}
+		c.Fld["dsel"], c.Fld["dun"], c.Fld["s0sel"], c.Fld["s1sel"] = dsel, dun, s0sel, s1sel
+		sdwa := uint32(2) | uint32(dsel)<<8 | uint32(dun)<<11 | uint32(s0sel)<<16 | uint32(s1sel)<<24
+		c.Enc = encVOP2(d.op, dst, 249, 4, &sdwa)
 	case "vopc":
 		s0 := g.vecSrc(c, "s0", d.aw, vtAt(d, 0), pl, 0, 2, 8, d.aw == 32, true)
 		bv := g.laneValues(d.bw, vtAt(d, 1), pl, 1)
@@ -1122,6 +1143,9 @@ func (g *gen) genC03(scale int, only map[string]bool) {
 				}
 				carry := has(d.flag, "vccin") || (d.tmpl == "vop3b" && d.cw == 64)
 				cross := crossRecords(nEnum(d), carry) + scale
+				if d.tmpl == "vop2sdwa" {
+					cross = 21
+				}
 				cnt := 0
 				emit := func(pl plan) {
 					st := "emu"
@@ -1145,6 +1169,9 @@ func (g *gen) genC03(scale int, only map[string]bool) {
 					}
 					if i == 2 && has(d.flag, "litk") {
 						continue
+					}
+					if d.tmpl == "vop2sdwa" {
+						continue // SDWA sources are VGPRs
 					}
 					vt := vtAt(d, i)
 					kinds := []int{8, 7}
